@@ -15,7 +15,10 @@ import json, os, re, shutil, subprocess, sys, time, hashlib
 
 VERIF = os.path.dirname(os.path.dirname(os.path.abspath(__file__)))
 REPO = os.environ.get("VERIF_REPO", "/repo")
-WORK = os.path.join(VERIF, ".work")
+# VERIF_OUTDIR redirects evidence/, replays/ and scratch (used when running the checks against seeded
+# changes, so that the committed evidence of the unchanged tree is not overwritten)
+OUTDIR = os.environ.get("VERIF_OUTDIR", VERIF)
+WORK = os.path.join(OUTDIR, ".work")
 MOD = "github.com/bilibili/smgo"
 
 sys.path.insert(0, os.path.join(VERIF, "tools"))
@@ -203,8 +206,8 @@ def finish(out, cfg, tier, seed, t0):
             print("KNOWN-FINDING: property=%s %s [class=%s observed x%d]" % (prop, hit["what"], cls, v["count"]))
         else:
             real[cls] = v
-    os.makedirs(os.path.join(VERIF, "replays"), exist_ok=True)
-    os.makedirs(os.path.join(VERIF, "evidence"), exist_ok=True)
+    os.makedirs(os.path.join(OUTDIR, "replays"), exist_ok=True)
+    os.makedirs(os.path.join(OUTDIR, "evidence"), exist_ok=True)
     nontrivial = [c for c in out.classes if not c.startswith("trivial")]
     cov = {
         "evaluations": int(out.evaluations),
@@ -225,10 +228,10 @@ def finish(out, cfg, tier, seed, t0):
         "coverage": cov, "assumptions": cfg.get("assumptions", []),
         "wall_s": round(time.time() - t0, 2), "violations": len(real),
     }
-    with open(os.path.join(VERIF, "evidence", prop + ".json"), "w") as f:
+    with open(os.path.join(OUTDIR, "evidence", prop + ".json"), "w") as f:
         json.dump(ev, f, indent=1, sort_keys=True, default=str)
     for cls, v in real.items():
-        rp = os.path.join(VERIF, "replays", "%s-%s.json" % (prop, slug(cls)))
+        rp = os.path.join(OUTDIR, "replays", "%s-%s.json" % (prop, slug(cls)))
         with open(rp, "w") as f:
             json.dump({"property": prop, "class": cls, "check": v.get("check"), "tier": tier, "seed": int(seed),
                        "count": v["count"], "detail": v["detail"],
@@ -273,7 +276,7 @@ def main():
     shutil.rmtree(workdir, ignore_errors=True)
     os.makedirs(workdir)
     overlay = build_overlay(workdir)
-    rdir = os.path.join(VERIF, "replays")
+    rdir = os.path.join(OUTDIR, "replays")
     if os.path.isdir(rdir):
         for fn in os.listdir(rdir):
             if fn.startswith(prop + "-"):
